@@ -346,6 +346,10 @@ func checkJSONDocAt(doc string, subset bool, pre int, disk bool, st *Stats, read
 		// the same loaded file evaluated again (fresh context and reader) must give the same answer:
 		// evaluating must not consume or rewrite the document
 		ctx2 := parsley.NewContext(newSet(), rd())
+		// (this time with the two tree passes enabled, as the example's own benchmark does: the example's
+		// interpreters neither transform nor check anything, so the answer is the same)
+		ctx2.EnableTransformation()
+		ctx2.EnableStaticCheck()
 		got2, gerr2 := parsley.Evaluate(ctx2, jsonP)
 		if (gerr == nil) != (gerr2 == nil) || (gerr == nil && !reflect.DeepEqual(got, got2)) || (gerr != nil && gerr.Error() != gerr2.Error()) {
 			err = fmt.Errorf("a second evaluation of the same loaded file differs: first %#v / %v, second %#v / %v", got, gerr, got2, gerr2)
